@@ -64,15 +64,16 @@ KERNELS = {
 
 Z = np.zeros
 # tiny arguments on which the prelude of each kernel is run to obtain the extents of its Omp model
-# (worksharing extent 3, every other extent <= 2)
+# (worksharing extent 3, every other loop 2 iterations (3 point pairs in the estimators): whichever loop a
+# changed source shares out has several iterations)
 MODEL_ARGS = {
     "summate": lambda: dict(cov_samples=Z((2, 2)), z_1=Z(2), z_2=Z(2), pos=Z((2, 3))),
     "summate_incompr": lambda: dict(cov_samples=Z((2, 2)), z_1=Z(2), z_2=Z(2), pos=Z((2, 3))),
     "summate_fourier": lambda: dict(spectrum_factor=Z(2), modes=Z((2, 2)), z_1=Z(2), z_2=Z(2), pos=Z((2, 3))),
     "calc_field_krige": lambda: dict(krig_mat=Z((2, 2)), krig_vecs=Z((2, 3)), cond=Z(2)),
     "calc_field_krige_and_variance": lambda: dict(krig_mat=Z((2, 2)), krig_vecs=Z((2, 3)), cond=Z(2)),
-    "unstructured": lambda: dict(f=Z((2, 2)), bin_edges=Z(4), pos=Z((1, 2))),
-    "directional": lambda: dict(f=Z((2, 2)), bin_edges=Z(4), pos=Z((2, 2)), direction=Z((2, 2))),
+    "unstructured": lambda: dict(f=Z((2, 3)), bin_edges=Z(4), pos=Z((1, 3))),
+    "directional": lambda: dict(f=Z((1, 3)), bin_edges=Z(4), pos=Z((2, 3)), direction=Z((2, 2))),
     "structured": lambda: dict(f=Z((4, 2))),
     "ma_structured": lambda: dict(f=Z((4, 2)), mask=Z((4, 2), dtype=np.uint8)),
 }
@@ -91,8 +92,8 @@ MODEL_ARGS_BIG = {
     "summate_fourier": lambda: dict(spectrum_factor=Z(3), modes=Z((2, 3)), z_1=Z(3), z_2=Z(3), pos=Z((2, 4))),
     "calc_field_krige": lambda: dict(krig_mat=Z((3, 3)), krig_vecs=Z((3, 4)), cond=Z(3)),
     "calc_field_krige_and_variance": lambda: dict(krig_mat=Z((2, 2)), krig_vecs=Z((2, 4)), cond=Z(2)),
-    "unstructured": lambda: dict(f=Z((1, 3)), bin_edges=Z(4), pos=Z((1, 3))),
-    "directional": lambda: dict(f=Z((1, 3)), bin_edges=Z(4), pos=Z((2, 3)), direction=Z((1, 2))),
+    "unstructured": lambda: dict(f=Z((1, 4)), bin_edges=Z(4), pos=Z((1, 4))),
+    "directional": lambda: dict(f=Z((1, 3)), bin_edges=Z(5), pos=Z((2, 3)), direction=Z((2, 2))),
     "structured": lambda: dict(f=Z((5, 2))),
     "ma_structured": lambda: dict(f=Z((5, 1)), mask=Z((5, 1), dtype=np.uint8)),
 }
@@ -384,7 +385,7 @@ def run_impls(kernel, args, extra=(), **kw):
     return run_batch([(kernel, args, extra)], **kw)[0]
 
 
-def judge(kernel, res, expected, tol_exp, sink, replay, have_ref=True):
+def judge(kernel, res, expected, tol_exp, sink, replay):
     """Compare the implementations of one input.  sink(key, what, replay)."""
     comp, cerr = res["compiled"]
     rp = dict(replay)
@@ -519,7 +520,7 @@ def random_specs(rng, tier):
                     out.append(("unstructured", rng.randrange(2**31), dict(d=d, npts=npts, est=est, dist="e", nan=npts > 5), True))
                     if d >= 2:
                         out.append(("directional", rng.randrange(2**31), dict(d=d, npts=min(npts, 80), est=est, nan=npts > 5,
-                                                                           bw=rng.choice([-1.0, 0.7]), sep=rng.random() < 0.5), True))
+                                                                           bw=rng.choice([-1.0, 0.7]), sep=(est == "m")), True))
         for npts in (3, 30, 100):
             out.append(("unstructured", rng.randrange(2**31), dict(d=2, npts=npts, est="m", dist="h", nan=False), True))
         for (r, c) in ((1, 1), (2, 3), (9, 4), (40, 25), (120, 6)):
@@ -582,9 +583,10 @@ def random_args(kernel, seed, p):
             f[0, g.integers(0, npts, size=max(1, npts // 10))] = np.nan
         if kernel == "unstructured":
             return (f, edges, pos), (p["est"], p["dist"])
-        dirs = g.normal(size=(g.integers(1, 4), d))
+        dirs = g.normal(size=(g.integers(2, 4), d))
+        dirs[1] = dirs[0] + 0.05 * g.normal(size=d)  # overlapping angular sectors: separate_dirs matters
         dirs /= np.linalg.norm(dirs, axis=1)[:, None]
-        return (f, edges, pos, dirs), (float(g.uniform(0.2, 1.2)), p["bw"], bool(p["sep"]), p["est"])
+        return (f, edges, pos, dirs), (float(g.uniform(0.4, 1.2)), p["bw"], bool(p["sep"]), p["est"])
     if kernel in ("structured", "ma_structured"):
         f = g.normal(size=(p["r"], p["c"]))
         if kernel == "structured":
@@ -804,6 +806,7 @@ def replay_pool(rep, setup, tasks):
     """tasks: list of (function, argument).  Runs them in worker processes, merges the results."""
     omp = setup.builds(rep)
     stats = {"n": 0, "threads_seen": 0, "slowest": 0.0}
+    seen = {"lattice": 0, "random": 0}
     ctx = mp.get_context("fork")
     with ctx.Pool(NPROC, initializer=_worker_init, initargs=(omp,)) as pool:
         asyncs = [pool.apply_async(fn, (arg,)) for fn, arg in tasks]
@@ -816,7 +819,10 @@ def replay_pool(rep, setup, tasks):
             stats["threads_seen"] = max(stats["threads_seen"], res.get("threads_seen", 0))
             stats["slowest"] = max(stats["slowest"], res.get("wall", 0.0))
             for smp in res["samples"]:
-                rep.sample(smp, cap=10)
+                kind = "lattice" if "spec_input" in smp else "random"
+                if seen[kind] < 5:
+                    seen[kind] += 1
+                    rep.sample(smp, cap=10)
             for key, what, rp in res["viol"]:
                 rep.violation(key, what, rp)
     return stats
@@ -968,9 +974,6 @@ def _task_probe(job):
                 viol.append(("projector:%s:not-solenoidal" % name,
                              "single-mode probe of summate_incompr (%s): k.p(k) = %.3e for k = %s, p = %s (|k| = %.3e)"
                              % (name, div, k.tolist(), p.tolist(), kn), {"kind": "probe", "k": k.tolist(), "p": p.tolist(), "impl": name}))
-            want = np.zeros(d)
-            want[0] = 1.0
-            want = want - k * k[0] / float(np.dot(k, k))
             # p.p = p_1 (projection of e1): a relation between outputs of the kernel, no external reference
             if not (abs(float(np.dot(p, p)) - p[0]) <= 1e-12) and not any(x[0].startswith("projector:%s" % name) for x in viol):
                 viol.append(("projector:%s:not-a-projection" % name,
